@@ -8,7 +8,7 @@ the op line carries the order the REAL code returned (`got=`); the driver answer
 specification functions (`Kahn.isPerm`, `Kahn.parentsFirst`) on it and, for graphs of at most 5 transactions,
 whether it is one of the outputs of the model `Kahn.dependencySort` over ALL pairs of iteration orders.
 
-    sort|unmined txs=<id:ph.idx/ph.idx;id:;...> got=<id,id,...>
+    sort|unmined [cr=none|all|odd|first] txs=<id:ph.idx/ph.idx;id:;...> got=<id,id,...>
     -> n=<n> perm=<0|1> pf=<0|1> member=<0|1|na> -/
 namespace EngKahn
 
@@ -50,6 +50,10 @@ def step (c : Cache) (line : String) : Cache × String :=
   match t with
   | op :: rest =>
     if op != "sort" && op != "unmined" then (c, "bad-op") else
+    -- `cr=` (which outputs are wallet credits) only exists for the store path and does not influence the order
+    if (match kv rest "cr" with
+        | some m => op != "unmined" || !(["none", "all", "odd", "first"].contains m)
+        | none => false) then (c, "bad-op") else
     match kv rest "txs", kv rest "got" with
     | some txsS, some gotS =>
       match parseTxs txsS, natList? gotS with
